@@ -5,6 +5,7 @@ messages in both framings, truncated fragments) mixed with legal traffic; every 
 model/Endpoint.v.  Oracle (the property itself): no exception escapes, receiver and sender stay alive, whatever is sent
 in reaction to a frame is on that frame's stream, and AFTERWARDS a probe request from the peer and a probe request of
 our own are both served correctly."""
+from harness import internals
 from harness import epcheck as E, sim, endpoint as EP
 
 MODEL_TARGETS = E.MODEL_TARGETS + ['model/Parser.vo']
@@ -50,7 +51,7 @@ def probe(sc):
         wrote = [g for g in (sim.parse_sent(b) for b in rec.t.sent[before2:]) if g.get('t') == 'RequestResponse' and g.get('sid') == sid2]
         if not wrote:
             res['own_probe'] = 'own request on stream %d was never written (wedged behind something the peer sent)' % sid2
-        if sid2 in rec.ep._frame_fragment_cache._frames_by_stream_id:
+        if sid2 in internals.cache_keys(rec.ep):
             # the hostile peer had already sent a stray first fragment on this very id: whatever it now answers is
             # glued onto its own earlier bytes — its own mess, not a containment failure
             pass
